@@ -49,12 +49,12 @@ def dur_res(src, default_ns, label):
 def contracts():
     c = {}
     # ---- three levels: global
-    c["GlobalOptions::get_renew_delay"] = FnSpec(ret="r", sig="    ensures" + dur_res("Some(self.renew_delay_src())", THIRTY_DAYS_NS, "C14.global_renew_delay_default_30d"))
-    c["GlobalOptions::get_random_early_renew"] = FnSpec(ret="r", sig="    ensures" + dur_res("Some(self.early_src())", "0nat", "C14.global_early_renew_default_0"))
+    c["GlobalOptions::get_renew_delay"] = FnSpec(ret="r", sig="    ensures" + dur_res("Some(self.renew_delay_src())", THIRTY_DAYS_NS, "C14.global_renew_delay_default_30d,C06.renewal_settings_are_the_most_specific_configured"))
+    c["GlobalOptions::get_random_early_renew"] = FnSpec(ret="r", sig="    ensures" + dur_res("Some(self.early_src())", "0nat", "C14.global_early_renew_default_0,C06.renewal_settings_are_the_most_specific_configured"))
     c["GlobalOptions::get_crt_name_format"] = FnSpec(ret="r", sig="    ensures r@ == self.fmt_src(), //@C14.global_format\n")
     # ---- endpoint over global
-    c["Endpoint::get_renew_delay"] = FnSpec(ret="r", sig="    ensures" + dur_res("Some(self.renew_delay_src(*cnf))", THIRTY_DAYS_NS, "C14.endpoint_over_global_renew_delay"))
-    c["Endpoint::get_random_early_renew"] = FnSpec(ret="r", sig="    ensures" + dur_res("Some(self.early_src(*cnf))", "0nat", "C14.endpoint_over_global_early_renew"))
+    c["Endpoint::get_renew_delay"] = FnSpec(ret="r", sig="    ensures" + dur_res("Some(self.renew_delay_src(*cnf))", THIRTY_DAYS_NS, "C14.endpoint_over_global_renew_delay,C06.renewal_settings_are_the_most_specific_configured"))
+    c["Endpoint::get_random_early_renew"] = FnSpec(ret="r", sig="    ensures" + dur_res("Some(self.early_src(*cnf))", "0nat", "C14.endpoint_over_global_early_renew,C06.renewal_settings_are_the_most_specific_configured"))
     c["Endpoint::get_crt_name_format"] = FnSpec(ret="r", sig="    ensures r@ == self.fmt_src(*cnf), //@C14.endpoint_over_global_format\n")
     # ---- certificate over endpoint over global
     c["Certificate::do_get_endpoint"] = FnSpec(ret="r", sig="""
@@ -66,9 +66,9 @@ def contracts():
         at=[("loop_iter", None, 1, "it:"),
             ("before_stmt", "return Ok(endpoint.clone())", 1, "proof { assert(first_endpoint(*cnf, self.endpoint@, it.index@)); }")])
     cert_pre = ""
-    c["Certificate::get_renew_delay"] = FnSpec(ret="r", sig="    ensures" + dur_res("self.renew_delay_src(*cnf)", THIRTY_DAYS_NS, "C14.certificate_over_endpoint_over_global_renew_delay"),
+    c["Certificate::get_renew_delay"] = FnSpec(ret="r", sig="    ensures" + dur_res("self.renew_delay_src(*cnf)", THIRTY_DAYS_NS, "C14.certificate_over_endpoint_over_global_renew_delay,C06.renewal_settings_are_the_most_specific_configured"),
         at=[("after_stmt", "self.do_get_endpoint", 1, "proof { lemma_first_unique(*cnf, self.endpoint@); }")])
-    c["Certificate::get_random_early_renew"] = FnSpec(ret="r", sig="    ensures" + dur_res("self.early_src(*cnf)", "0nat", "C14.certificate_over_endpoint_over_global_early_renew"),
+    c["Certificate::get_random_early_renew"] = FnSpec(ret="r", sig="    ensures" + dur_res("self.early_src(*cnf)", "0nat", "C14.certificate_over_endpoint_over_global_early_renew,C06.renewal_settings_are_the_most_specific_configured"),
         at=[("after_stmt", "self.do_get_endpoint", 1, "proof { lemma_first_unique(*cnf, self.endpoint@); }")])
     c["Certificate::get_crt_name_format"] = FnSpec(ret="r", sig="""
     ensures match self.fmt_src(*cnf) { None => r is Err, Some(s) => r matches Ok(v) && v@ == s }, //@C14.certificate_over_endpoint_over_global_format
@@ -221,14 +221,14 @@ def contracts():
             let ghost lf_before = loaded_files@;
             proof {
                 // the recursive call works on a strictly larger set of loaded files
-                lemma_cnf_call(*w, loaded_files@, old(loaded_files)@, path@);
+                lemma_cnf_call(*w, loaded_files@, old(loaded_files)@, path@); //@C14.each_file_read_once,C19.include_recursion_terminates
             }
             let ghost cfg0 = config;"""),
             ("after_stmt", "let mut add_cnf = read_cnf", 1, """
             let ghost add0 = add_cnf;
-            proof { lemma_cnf_after(*w, lf_before, loaded_files@, old(loaded_files)@, path@); }"""),
-            ("before_stmt", "for cnf_name in", 1, "proof { lemma_cnf_start(*w, loaded_files@, old(loaded_files)@, path@); }"),
-            ("before_tail", None, 1, "proof { lemma_cnf_end(*w, loaded_files@, old(loaded_files)@, path@); }"),
+            proof { lemma_cnf_after(*w, lf_before, loaded_files@, old(loaded_files)@, path@); } //@C14.each_file_read_once,C19.include_recursion_terminates"""),
+            ("before_stmt", "for cnf_name in", 1, "proof { lemma_cnf_start(*w, loaded_files@, old(loaded_files)@, path@); } //@C14.each_file_read_once,C19.include_recursion_terminates"),
+            ("before_tail", None, 1, "proof { lemma_cnf_end(*w, loaded_files@, old(loaded_files)@, path@); } //@C14.each_file_read_once,C19.include_recursion_terminates"),
             ("before_stmt", "if config.global.is_none()", 1, """
             proof {
                 // C14: sections of included files are appended, none is dropped
@@ -242,6 +242,10 @@ def contracts():
             ("after_stmt", "if config.global.is_none()", 1, """
             proof {
                 // C14: for each of the 15 global options, the value of the later-included file wins when it sets one
+                assert(merged_file_settings(cfg0.global, add0.global, config.global)); //@C14.later_global_option_wins,C13.file_modes_and_owners_of_an_included_global_section_are_kept_apart
+                assert(merged_roots(cfg0.global, add0.global, config.global)); //@C14.later_global_option_wins,C18.root_certificates_of_an_included_global_section
+                assert(merged_env(cfg0.global, add0.global, config.global)); //@C14.later_global_option_wins,C10.environment_of_an_included_global_section
+                assert(merged_renewal(cfg0.global, add0.global, config.global)); //@C14.later_global_option_wins,C06.renewal_settings_of_an_included_global_section
                 assert(global_merged(cfg0.global, add0.global, config.global)); //@C14.later_global_option_wins
             }"""),
             ],
@@ -282,6 +286,7 @@ pub fn parse_duration(input: &str) -> (r: Result<Duration, Error>)
     u.take("acmed/src/hooks.rs", "Hook", "hooks")
     u.raw("", WORLD, trusted=True)
     u.ghost_call("open", quals=("File",))
+    u.ghost_call("read_to_string", quals=("fs",))
     u.macro_as_fn(C, "set_cfg_attr", "config",
                   "pub fn set_cfg_attr__fn<T>(to__: &mut Option<T>, from__: Option<T>)\n"
                   "    ensures *final(to__) == later(*old(to__), from__), //@C14.set_cfg_attr_takes_the_later_value",
@@ -301,9 +306,9 @@ pub fn parse_duration(input: &str) -> (r: Result<Duration, Error>)
     for key, fs in c.items():
         ty, fn = key.split("::") if "::" in key else ("", key)
         if "::" not in key:
-            u.verify(C, key, "config", props=["C14", "C19"], fns={key: fs})
+            u.verify(C, key, "config", props=["C14", "C19"] + (["C13", "C18", "C10", "C06"] if key == "read_cnf" else []), fns={key: fs})
             continue
-        p = ["C13"] if fn in props["C13"] else ["C14", "C10", "C19"] if "hook" in fn else ["C18", "C14"] if fn == "to_generic" else ["C14"]
+        p = ["C14", "C06"] if fn in ("get_renew_delay", "get_random_early_renew") else ["C13"] if fn in props["C13"] else ["C14", "C10", "C19"] if "hook" in fn else ["C18", "C14"] if fn == "to_generic" else ["C14"]
         u.verify(C, key, "config", props=p, fns={fn: fs})
     return u
 
@@ -352,6 +357,18 @@ impl File {
     { unimplemented!() }
     #[verifier::external_body]
     pub fn read_to_string(&mut self, s: &mut String) -> (r: Result<usize, crate::acme_common::error::IoError>) { unimplemented!() }
+}
+// std::fs::read_to_string(path) = File::open(path) + read_to_string: the same bookkeeping of opened files
+pub mod fs {
+    use vstd::prelude::*;
+    use super::{PathBuf, World, canon};
+    verus! {
+    #[verifier::external_body]
+    pub fn read_to_string(p: &PathBuf, Tracked(w): Tracked<&mut World>) -> (r: Result<String, crate::acme_common::error::IoError>)
+        requires !old(w).opened.contains(canon(p@)), //@C14.each_file_read_once
+        ensures final(w).opened == old(w).opened.insert(canon(p@))
+    { unimplemented!() }
+    }
 }
 pub mod toml {
     use vstd::prelude::*;
@@ -435,6 +452,27 @@ pub open spec fn global_merged(a: Option<GlobalOptions>, b: Option<GlobalOptions
             && z.renew_delay == later(x.renew_delay, y.renew_delay)
             && z.root_certificates == later(x.root_certificates, y.root_certificates),
     }
+}
+// the same, option group by option group (each group feeds another property)
+pub open spec fn merged_file_settings(a: Option<GlobalOptions>, b: Option<GlobalOptions>, m: Option<GlobalOptions>) -> bool {
+    match (a, b) {
+        (Some(x), Some(y)) => m matches Some(z)
+            && z.cert_file_group == later(x.cert_file_group, y.cert_file_group) && z.cert_file_mode == later(x.cert_file_mode, y.cert_file_mode)
+            && z.cert_file_user == later(x.cert_file_user, y.cert_file_user) && z.cert_file_ext == later(x.cert_file_ext, y.cert_file_ext)
+            && z.pk_file_group == later(x.pk_file_group, y.pk_file_group) && z.pk_file_mode == later(x.pk_file_mode, y.pk_file_mode)
+            && z.pk_file_user == later(x.pk_file_user, y.pk_file_user) && z.pk_file_ext == later(x.pk_file_ext, y.pk_file_ext),
+        _ => true,
+    }
+}
+pub open spec fn merged_roots(a: Option<GlobalOptions>, b: Option<GlobalOptions>, m: Option<GlobalOptions>) -> bool {
+    match (a, b) { (Some(x), Some(y)) => m matches Some(z) && z.root_certificates == later(x.root_certificates, y.root_certificates), _ => true }
+}
+pub open spec fn merged_env(a: Option<GlobalOptions>, b: Option<GlobalOptions>, m: Option<GlobalOptions>) -> bool {
+    match (a, b) { (Some(x), Some(y)) => m matches Some(z) && z.env == (if y.env@.len() > 0 { y.env } else { x.env }), _ => true }
+}
+pub open spec fn merged_renewal(a: Option<GlobalOptions>, b: Option<GlobalOptions>, m: Option<GlobalOptions>) -> bool {
+    match (a, b) { (Some(x), Some(y)) => m matches Some(z) && z.random_early_renew == later(x.random_early_renew, y.random_early_renew)
+        && z.renew_delay == later(x.renew_delay, y.renew_delay), _ => true }
 }
 // ---- hook and group resolution
 pub open spec fn first_hook(cnf: Config, name: Seq<char>, i: int) -> bool {
